@@ -230,7 +230,7 @@ pub fn exec_shared(state: &St, op: &Sx) -> Option<String> {
             for _ in 0..d { match r.parent() { Some(p) => r = p, None => return Some("noparent".into()) } }
             return Some(with_key!(k, T => res(r.try_get_value::<T>())));
         }
-        "hastop" | "has" | "find" | "get" | "tryget" | "set" | "req" => {}
+        "hastop" | "has" | "find" | "get" | "tryget" | "set" | "req" | "gset" | "gget" => {}
         _ => return None,
     }
     let k = n(a, 0);
@@ -242,6 +242,15 @@ pub fn exec_shared(state: &St, op: &Sx) -> Option<String> {
         "tryget" => res(state.try_get_value::<T>()),
         "set" => opt(state.set_value::<T>(n(a, 1))),
         "req" => match state.requirements().require::<(), T>() { Ok(()) => "ok".into(), Err(e) => err_s(&e) },
+        // value access while a guard on the same type is alive
+        "gset" => match state.try_borrow::<T>() {
+            Ok(g) => { let o = opt(state.set_value::<T>(n(a, 1))); drop(g); o }
+            Err(e) => err_s(&e),
+        },
+        "gget" => match state.try_borrow_mut::<T>() {
+            Ok(g) => { let o = res(state.try_get_value::<T>()); drop(g); o }
+            Err(e) => err_s(&e),
+        },
         _ => unreachable!(),
     }))
 }
